@@ -45,6 +45,7 @@ type verifModule struct {
 	data      []byte
 	startFn   int // -1 or 0: none ... uses hasStart
 	hasStart  bool
+	extraTypes [][2][]byte // additional function types (params, results), e.g. for multi-value block types
 }
 
 type verifGlobal struct {
@@ -107,6 +108,9 @@ func (m *verifModule) encode() []byte {
 	}
 	for _, f := range m.funcs {
 		types = append(types, append(append([]byte{0x60}, vBytes(f.params)...), vBytes(f.results)...))
+	}
+	for _, et := range m.extraTypes {
+		types = append(types, append(append([]byte{0x60}, vBytes(et[0])...), vBytes(et[1])...))
 	}
 	out = append(out, vSection(1, vVec(types...))...)
 	if len(m.imports) > 0 {
